@@ -438,6 +438,12 @@ def c16(res, tier, seed):
     mc(res, b, "cache-te", BASE_TE, [1, 18, 48], ["size", "rt", "marshal"], D(tier, 3, 4), nobj=2, nest_at=18, nest_fields=[1, 2])
     mc(res, b, "cache-ext", "goproto.proto.test.TestAllExtensions", [18], ["size", "rt"], 4, nest_at=18, nest_fields=[1],
        laws=["AllWellFormed", "RoundTripLaw"])
+    # the cached sizes of a lazily decoded message: Size, then read-only access that makes deferred fields decode, then
+    # Marshal{UseCachedSize} (nothing was changed, the precondition of UseCachedSize holds).  The record nests two lazy levels whose
+    # innermost int32 is encoded non-minimally (81 00), so re-encoding a level changes its length (known finding K1)
+    mc(res, b, "cache-lazy", "opaque.lazy_tree.Node", [99], ["uwire", "touch", "marshalc"], 3, nobj=1, nest_at=99, nest_fields=[1],
+       wire_recs=[[154, 6, 6, 154, 6, 3, 8, 129, 0], [154, 6, 2, 8, 1]], max_recs=1,
+       flavs=[("opaque.lazy_tree.Node", False), ("lazy_tree.Node", True)], laws=["AllWellFormed"])
     finish(res, b, seed, tier, "mut=10,size=5,marshal=5,rt=3,equal=1,clone=1")
 
 
